@@ -15,6 +15,7 @@ import (
 
 	"github.com/pion/datachannel"
 	"github.com/pion/logging"
+	"github.com/pion/webrtc/v4/internal/verifhook"
 	"github.com/pion/webrtc/v4/pkg/rtcerr"
 )
 
@@ -348,6 +349,7 @@ func (d *DataChannel) handleOpen(dc *datachannel.DataChannel, isRemote, isAlread
 	bufferedAmountLowThreshold := d.bufferedAmountLowThreshold
 	onBufferedAmountLow := d.onBufferedAmountLow
 	d.mu.Unlock()
+	verifhook.Point("dc.handleOpen.beforeOpen")
 	d.setReadyState(DataChannelStateOpen)
 
 	// Fire the OnOpen handler immediately not using pion/datachannel
@@ -426,6 +428,7 @@ func (d *DataChannel) readLoop() {
 				)
 			}
 
+			verifhook.Point("dc.readLoop.beforeClosed")
 			d.setReadyState(DataChannelStateClosed)
 			if !errors.Is(err, io.EOF) {
 				d.onError(err)
@@ -568,6 +571,7 @@ func (d *DataChannel) close(shouldGracefullyClose bool) error {
 		return nil
 	}
 
+	verifhook.Point("dc.close.beforeClosing")
 	d.setReadyState(DataChannelStateClosing)
 	if !haveSctpTransport {
 		return nil
@@ -769,5 +773,6 @@ func (d *DataChannel) collectStats(collector *statsReportCollector) {
 }
 
 func (d *DataChannel) setReadyState(r DataChannelState) {
+	defer verifhook.Bracket("dc.readyState", d, func() int64 { return int64(d.ReadyState()) })()
 	d.readyState.Store(r)
 }
